@@ -1,7 +1,7 @@
 """C18 - Read / Mock generators pass source data through once, in order, and fail loudly."""
 from . import common as C
 
-LEAN_MODULE = "Urandom.Props.C18"
+LEAN_MODULE = ["Urandom.Props.C18", "Urandom.Props.C18T"]
 DISAGREEMENT_IS_FAILING_INPUT = False
 RULE = ("requests: Read over an adversarial scripted reader (1-byte reads, random chunk sizes, Interrupted before any chunk, an I/O error of every kind - Other, WouldBlock, TimedOut, UnexpectedEof, BrokenPipe, InvalidData, OutOfMemory, Unsupported - or end of data at every offset; a quarter of the readers bring their own read_exact from which Interrupted escapes after partial progress, `rx=naive`) under "
         "random interleavings of next_u32 / next_u64 / fill_bytes(len) / jump with panics caught per operation; Mock over word lists incl. exhaustion and jump. "
